@@ -55,6 +55,8 @@ pub enum ApChangeError {
     BadMergeBaseMismatch(StatementIdx),
     #[error("failed solving the ap changes")]
     SolvingApChangeEquationFailed,
+    #[error("#{0}: the ap change of a branch is larger than the ap change left at its target")]
+    InconsistentApChange(StatementIdx),
 }
 
 /// Helper to implement the `InvocationApChangeInfoProvider` for the equation generation.
